@@ -140,6 +140,123 @@ theorem guard_preserves_nonempty (m ctx : Bytes) (h : ctx ≠ []) :
     | cons _ _ => simp
   simp [this]
 
+/-! ### any `crypto.PrivKey` value, and `DeriveEd25519Key` -/
+
+/-- A nil key (nil interface or nil `*Ed25519PrivateKey`) and a key of a foreign implementation
+are answered with an error by both functions, for every context, salt and length. -/
+theorem nil_or_foreign_key_is_error (P : Prims) (ctx salt : Bytes) (n : Nat) :
+    deriveKeyArg P ctx salt .nil n = .err ∧ deriveKeyArg P ctx salt .foreign n = .err ∧
+    deriveEd25519 P ctx salt .nil = .err ∧ deriveEd25519 P ctx salt .foreign = .err := by
+  refine ⟨rfl, rfl, ?_, ?_⟩ <;> simp [deriveEd25519, deriveEdProg, deriveArgProg, run_andThen]
+
+/-- On an Ed25519 key the general entry point is the derivation the theorems above speak about. -/
+theorem deriveKeyArg_ed (P : Prims) (ctx salt raw : Bytes) (n : Nat) :
+    deriveKeyArg P ctx salt (.ed raw) n = deriveKey P ctx salt raw n := rfl
+
+/-- Totality for every key value — nil, foreign or Ed25519 bytes of any length — every context,
+salt and output length (0, 1024, 65536, …): a result or an error, never a panic. -/
+theorem deriveArg_total (P : Prims) (hl : LenLaws P) (ctx salt : Bytes) (k : KeyArg) (n : Nat) :
+    deriveKeyArg P ctx salt k n ≠ .panic := by
+  cases k with
+  | nil => simp [deriveKeyArg, deriveArgProg]
+  | foreign => simp [deriveKeyArg, deriveArgProg]
+  | ed raw => exact derive_total P hl ctx salt raw n
+
+/-- `DeriveEd25519Key` never panics either. -/
+theorem deriveEd_total (P : Prims) (hl : LenLaws P) (ctx salt : Bytes) (k : KeyArg) :
+    deriveEd25519 P ctx salt k ≠ .panic := by
+  unfold deriveEd25519 deriveEdProg
+  apply np_andThen
+  · exact deriveArg_total P hl ctx salt k 32
+  · intro seed hs
+    have h32 : seed.length = 32 := by
+      cases k with
+      | nil => simp [deriveArgProg] at hs
+      | foreign => simp [deriveArgProg] at hs
+      | ed raw =>
+        obtain ⟨m, _, ho⟩ := (derive_ok_iff P ctx salt raw seed 32).mp hs
+        exact hl.kdf _ _ _ _ ho
+    apply np_panicIf _ _ _ (by simp [h32])
+    apply np_askE; intro pub _
+    exact np_ok _ _
+
+/-- What `DeriveEd25519Key` returns: exactly the Ed25519 key pair whose seed is the 32-byte output
+of `DeriveKey` on the same (context, salt, key) — `seed ‖ public key of seed`. -/
+theorem deriveEd_ok_iff (P : Prims) (ctx salt : Bytes) (k : KeyArg) (kp : Bytes) :
+    deriveEd25519 P ctx salt k = .ok kp ↔
+      ∃ seed pub, deriveKeyArg P ctx salt k 32 = .ok seed ∧ seed.length = 32 ∧
+        P (.edPub seed) = some pub ∧ kp = seed ++ pub := by
+  unfold deriveEd25519 deriveEdProg deriveKeyArg
+  simp only [andThen_ok, panicIf_ok, askE_ok, done_ok]
+  constructor
+  · rintro ⟨seed, hs, hl, pub, hp, rfl⟩
+    exact ⟨seed, pub, hs, by simpa using hl, hp, rfl⟩
+  · rintro ⟨seed, pub, hs, hl, hp, rfl⟩
+    exact ⟨seed, hs, by simp [hl], pub, hp, rfl⟩
+
+/-- It fails exactly when `DeriveKey` fails (given that `ed25519.NewKeyFromSeed` is total on
+32-byte seeds). -/
+theorem deriveEd_err_iff (P : Prims) (hl : LenLaws P) (hpub : ∀ s : Bytes, s.length = 32 → (P (.edPub s)).isSome)
+    (ctx salt : Bytes) (k : KeyArg) :
+    deriveEd25519 P ctx salt k = .err ↔ deriveKeyArg P ctx salt k 32 = .err := by
+  have hnp := deriveEd_total P hl ctx salt k
+  have hnp' := deriveArg_total P hl ctx salt k 32
+  constructor
+  · intro he
+    cases hd : deriveKeyArg P ctx salt k 32 with
+    | err => rfl
+    | panic => exact absurd hd hnp'
+    | ok seed =>
+      exfalso
+      have h32 : seed.length = 32 := by
+        cases k with
+        | nil => simp [deriveKeyArg, deriveArgProg] at hd
+        | foreign => simp [deriveKeyArg, deriveArgProg] at hd
+        | ed raw =>
+          obtain ⟨m, _, ho⟩ := (derive_ok_iff P ctx salt raw seed 32).mp hd
+          exact hl.kdf _ _ _ _ ho
+      obtain ⟨pub, hp⟩ := Option.isSome_iff_exists.mp (hpub seed h32)
+      have := (deriveEd_ok_iff P ctx salt k (seed ++ pub)).mpr ⟨seed, pub, hd, h32, hp, rfl⟩
+      rw [he] at this
+      cases this
+  · intro hd
+    cases he : deriveEd25519 P ctx salt k with
+    | err => rfl
+    | panic => exact absurd he hnp
+    | ok kp =>
+      obtain ⟨seed, _, hs, _⟩ := (deriveEd_ok_iff P ctx salt k kp).mp he
+      rw [hd] at hs
+      cases hs
+
+/-- Determinism of `DeriveEd25519Key`. -/
+theorem deriveEd_deterministic (P : Prims) (ctx salt ctx' salt' : Bytes) (k k' : KeyArg)
+    (h : (ctx, salt, k) = (ctx', salt', k')) :
+    deriveEd25519 P ctx salt k = deriveEd25519 P ctx' salt' k' := by
+  cases h; rfl
+
+/-- Separation carries over: two derived Ed25519 keys that coincide come from the same 32-byte
+`DeriveKey` output, so `separation` applies to the two derivations (same context, salt and
+material, or an explicit BLAKE3 collision). -/
+theorem deriveEd_same_key_same_seed (P : Prims) (ctx salt ctx' salt' : Bytes) (k k' : KeyArg) (kp : Bytes)
+    (h : deriveEd25519 P ctx salt k = .ok kp) (h' : deriveEd25519 P ctx' salt' k' = .ok kp) :
+    ∃ seed, deriveKeyArg P ctx salt k 32 = .ok seed ∧ deriveKeyArg P ctx' salt' k' 32 = .ok seed := by
+  obtain ⟨s1, p1, hs1, hl1, _, e1⟩ := (deriveEd_ok_iff P ctx salt k kp).mp h
+  obtain ⟨s2, p2, hs2, hl2, _, e2⟩ := (deriveEd_ok_iff P ctx' salt' k' kp).mp h'
+  have : s1 = s2 := (List.append_inj (e1.symm.trans e2) (by omega)).1
+  subst this
+  exact ⟨s1, hs1, hs2⟩
+
+/-- Non-vacuity: over `toyPrims` `DeriveEd25519Key` succeeds on an Ed25519 key with the empty context
+and errs on a nil key. -/
+example : (∃ kp, deriveEd25519 toyPrims [] [1, 2] (.ed (List.replicate 64 7)) = .ok kp) ∧
+    deriveEd25519 toyPrims [] [1, 2] .nil = .err := by
+  refine ⟨?_, (nil_or_foreign_key_is_error toyPrims [] [1, 2] 0).2.2.1⟩
+  have hne := deriveEd_total toyPrims toy_len [] [1, 2] (.ed (List.replicate 64 7))
+  cases h : deriveEd25519 toyPrims [] [1, 2] (.ed (List.replicate 64 7)) with
+  | ok o => exact ⟨o, rfl⟩
+  | err => exact absurd h (by decide)
+  | panic => exact absurd h hne
+
 /-- Non-vacuity: the laws are satisfiable (`toyPrims`), a derivation with the EMPTY context
 succeeds there, and `separation` applies to it. -/
 example : ∃ out, deriveKey toyPrims [] [1, 2] (List.replicate 64 7) 32 = .ok out := by
